@@ -112,6 +112,15 @@ class Facts:
                 tb = self.body(tgt)
                 if tb is not None:
                     g[k].add(tb.name)
+                # blanket conversions: T::try_into() / T::into() call <U as TryFrom<T>>::try_from / <U as From<T>>::from
+                fnn = norm(ref.get("fn") or "")
+                ga = ref.get("gargs") or []
+                if len(ga) >= 2 and (fnn.endswith("TryInto::try_into") or fnn.endswith("Into::into")):
+                    want = "TryFrom<" if fnn.endswith("try_into") else "From<"
+                    meth = "try_from" if fnn.endswith("try_into") else "from"
+                    for cand in self.bodies:
+                        if cand.startswith("<" + ga[1] + " as std::convert::" + want) and cand.endswith(">::" + meth):
+                            g[k].add(cand)
                 if ref.get("unresolved") and ref.get("trait"):
                     meth = norm(ref["fn"]).split("::")[-1]
                     tr = norm(ref["trait"]).split("::")[-1]
@@ -448,7 +457,11 @@ class Body:
             if p == "*":
                 base = ("deref", base)
             elif isinstance(p, dict) and "n" in p:
-                base = ("field", base, p["n"])
+                if isinstance(base, tuple) and base and base[0] == "agg" and p["n"].isdigit() and int(p["n"]) < len(base[2]) and \
+                        not str(base[1]).startswith("closure:") and (base[1] == "tuple" or "tuple" in p):
+                    base = base[2][int(p["n"])]
+                else:
+                    base = ("field", base, p["n"])
             elif isinstance(p, dict) and "idx" in p:
                 base = ("index", base, self._local_expr(p["idx"], depth - 1, _seen, expand_named, at))
             elif isinstance(p, dict) and "cidx" in p:
@@ -883,4 +896,157 @@ def const_str(o):
     if o.get("ty") == "&str" and isinstance(tc, str) and len(tc) >= 2 and tc[0] == '"' and tc[-1] == '"':
         body = tc[1:-1]
         return body.replace('\\"', '"').replace("\\n", "\n").replace("\\t", "\t").replace("\\\\", "\\")
+    return None
+
+
+# -------------------------------------------------------------------------------------------
+# decision tables and symbolic inlining
+
+
+def decision_paths(body, max_paths=4000):
+    """Path-sensitive symbolic walk: enumerate acyclic paths entry -> return, executing assignments symbolically.
+    Each result: (conds, ret_expr, last_bb) where conds is a list of (discr_expr, value) for every SwitchInt taken
+    (value = matched int or ('otherwise', (v1, v2, ..))) and ret_expr the value of _0 on that path. Paths ending in
+    a diverging block (panic / unreachable) are returned with ret_expr None."""
+    out = []
+
+    def read_place(env, pl):
+        l = pl["l"]
+        base = env.get(l)
+        if base is None:
+            base = body._local_expr(l, 0, frozenset(), False) if (1 <= l <= body.arg_count or body.local_name(l)) else ("tmp", l)
+        for p in pl.get("p", []):
+            if p == "*":
+                base = base[1] if isinstance(base, tuple) and base and base[0] == "ref" else ("deref", base)
+            elif isinstance(p, dict) and "n" in p:
+                if isinstance(base, tuple) and base and base[0] == "agg" and p["n"].isdigit() and int(p["n"]) < len(base[2]) and not str(base[1]).startswith("closure:"):
+                    base = base[2][int(p["n"])]
+                elif isinstance(base, tuple) and base and base[0] == "as" and isinstance(base[1], tuple) and base[1] and base[1][0] == "agg" and \
+                        str(base[1][1]).endswith("::" + base[2]) and p["n"].isdigit() and int(p["n"]) < len(base[1][2]):
+                    base = base[1][2][int(p["n"])]
+                else:
+                    base = ("field", base, p["n"])
+            elif isinstance(p, dict) and "idx" in p:
+                base = ("index", base, env.get(p["idx"], ("tmp", p["idx"])))
+            elif isinstance(p, dict) and "cidx" in p:
+                base = ("index", base, ("const", p["cidx"]))
+            elif isinstance(p, dict) and "variant" in p:
+                base = ("as", base, p["variant"])
+        return simplify(base)
+
+    def operand(env, o):
+        if o.get("k") == "const":
+            return body._const_expr(o)
+        return read_place(env, o["pl"])
+
+    def rvalue(env, rv):
+        k = rv["k"]
+        if k == "use":
+            return operand(env, rv["op"])
+        if k in ("ref", "rawptr"):
+            return ("ref", read_place(env, rv["pl"]))
+        if k == "cast":
+            return ("cast", operand(env, rv["op"]), rv["to"])
+        if k == "binop":
+            return ("binop", rv["op"], operand(env, rv["a"]), operand(env, rv["b"]))
+        if k == "unop":
+            return ("unop", rv["op"], operand(env, rv["a"]))
+        if k == "discr":
+            v = read_place(env, rv["pl"])
+            return ("discr", v)
+        if k == "agg":
+            tag = rv.get("agg")
+            if tag == "adt":
+                tag = norm(rv["adt"]) + "::" + rv["variant"]
+            elif tag == "closure":
+                tag = "closure:" + rv["closure"]
+            return ("agg", tag, tuple(operand(env, x) for x in rv["ops"]))
+        return ("rv", k)
+
+    def rec(bb, conds, seen, env):
+        if len(out) >= max_paths:
+            return
+        env = dict(env)
+        for s in body.blocks[bb]["stmts"]:
+            if s["k"] == "assign":
+                if not s["lhs"].get("p"):
+                    env[s["lhs"]["l"]] = rvalue(env, s["rv"])
+                elif len(s["lhs"]["p"]) == 1 and isinstance(s["lhs"]["p"][0], dict) and s["lhs"]["p"][0].get("n", "").isdigit():
+                    # field-wise initialisation of a tuple / struct temp
+                    cur = env.get(s["lhs"]["l"])
+                    idx = int(s["lhs"]["p"][0]["n"])
+                    comps = list(cur[2]) if isinstance(cur, tuple) and cur and cur[0] == "agg" else []
+                    while len(comps) <= idx:
+                        comps.append(("tmp", -1))
+                    comps[idx] = rvalue(env, s["rv"])
+                    env[s["lhs"]["l"]] = ("agg", "tuple", tuple(comps))
+        t = body.blocks[bb]["term"]
+        k = t["k"]
+        if k == "return":
+            out.append((list(conds), env.get(0, ("tmp", 0)), bb))
+            return
+        if k == "call":
+            f = t["func"]
+            fname = norm(f.get("res") or f.get("fn")) if f.get("k") == "const" and "fn" in f else ("indirect", operand(env, f))
+            if not t["dest"].get("p"):
+                env[t["dest"]["l"]] = ("call", fname, tuple(operand(env, a) for a in t["args"]))
+        if k == "switch":
+            e = operand(env, t["discr"])
+            vals = tuple(x[0] for x in t["targets"])
+            for v, tg in t["targets"]:
+                if tg not in seen:
+                    rec(tg, conds + [(e, v)], seen | {tg}, env)
+            tg = t["otherwise"]
+            if tg not in seen and body.blocks[tg]["term"]["k"] != "unreachable":
+                rec(tg, conds + [(e, ("otherwise", vals))], seen | {tg}, env)
+            return
+        nx = body.succ(bb)
+        if not nx:
+            out.append((list(conds), None, bb))
+            return
+        for sx in nx:
+            if sx not in seen:
+                rec(sx, conds, seen | {sx}, env)
+
+    rec(0, [], {0}, {})
+    return out
+
+
+def inline_expr(fx, e, depth=6):
+    """Symbolically inline calls to small in-crate functions and named constants so that values such as
+    `Piece::WHITE_ROOK` or `Square::from_file_and_rank(File::A, Rank::R1)` become aggregates of enum constants."""
+    if depth <= 0 or not isinstance(e, tuple) or not e:
+        return e
+    if e[0] == "constpath":
+        b = fx.body(e[1])
+        if b is not None and (b.kind.startswith("AssocConst") or b.kind.startswith("Const")):
+            rets = [p for p in decision_paths(b, 4) if p[1] is not None]
+            if len(rets) == 1:
+                return inline_expr(fx, rets[0][1], depth - 1)
+        return e
+    if e[0] == "call" and isinstance(e[1], str):
+        args = tuple(inline_expr(fx, a, depth - 1) for a in e[2])
+        b = fx.body(e[1])
+        if b is not None and b.kind in ("Fn", "AssocFn") and b.n <= 6:
+            rets = [p for p in decision_paths(b, 4) if p[1] is not None]
+            if len(rets) == 1 and not rets[0][0]:
+                sub = substitute_args(rets[0][1], args)
+                return inline_expr(fx, sub, depth - 1)
+        return ("call", e[1], args)
+    return tuple(inline_expr(fx, x, depth) if isinstance(x, tuple) else x for x in e)
+
+
+def substitute_args(e, args):
+    if not isinstance(e, tuple) or not e:
+        return e
+    if e[0] == "arg" and 1 <= e[1] <= len(args):
+        return args[e[1] - 1]
+    return tuple(substitute_args(x, args) if isinstance(x, tuple) else x for x in e)
+
+
+def enum_name(e):
+    """'Variant' if e is a fieldless enum constant aggregate"""
+    e = deep_strip(e)
+    if isinstance(e, tuple) and e and e[0] == "agg" and isinstance(e[1], str) and not e[2]:
+        return e[1].split("::")[-1]
     return None
